@@ -1115,7 +1115,6 @@ func (w *World) writesOfFnPreexisting(fn *ssa.Function) map[string]bool {
 	return out
 }
 
-
 // recursiveCall: can callee reach caller again through static calls inside the verified packages?
 func (w *World) recursiveCall(caller, callee *ssa.Function) bool {
 	if callee.Blocks == nil || w.fnByKey[shortFuncKey(callee)] != callee {
